@@ -20,7 +20,7 @@ from vf import histbfs
 from vf.c04_model import MOD, NONTRIVIAL_RULE, replay_case
 from vf.common import Ctx
 
-BUDGET = {'quick': 72.0, 'thorough': 1560.0}
+BUDGET = {'quick': 62.0, 'thorough': 1560.0}
 
 
 def brickwork(radixes: tuple, layers: int) -> list:
